@@ -13,7 +13,7 @@ ASSUMPTIONS = ["configurations are the runnable shipped .ini files verbatim, or 
                "handler and event handlers; private reads: Mediator._state_handler/_scheduler/_activator/"
                "_input_output_handler, Activator._taggers/_internal_states"]
 NT = lambda m: m.stats['composite_checks'] > 0 and m.stats['liftings'] >= 1 and m.stats['commit/end_of_chain'] >= 1
-KW = {'composites_only': True, 'g4_one_in': 3}
+KW = {'composites_only': True, 'g4_one_in': 4, 'g7_one_in': 4}
 
 
 def body(rec, c):
